@@ -62,3 +62,9 @@ package builder
 //@   property C17
 //@   modifies nothing
 //@   ensures  result
+//
+// merge_into / compose (mergeBuilderInto): every assignment copied from the source builder keeps its value
+// and is re-rooted under the given path with ast.Path.Append, whose contract says that the new path is a
+// FRESH array holding `underPath ++ old path` (so two re-rooted paths never share a backing array). The
+// obligation that mergeBuilderInto builds these paths in no other way is structural (generated from its
+// SSA: flow:builder.mergeBuilderInto:...); the loops of mergeBuilderInto are not under contract.
